@@ -288,6 +288,21 @@ class Terms:
                 return ("index", self.of_operand(args[0], depth), self.of_operand(args[1], depth))
             if c.key in UNWRAP and args:
                 return ("field", ("variant", self.of_operand(args[0], depth), UNWRAP[c.key]), 0)
+            if c.key in (("Option", "map"), ("Pin", "map_unchecked_mut"), ("Pin", "map_unchecked")) and len(args) == 2:
+                # closure-mapped views: an identity / re-pinning closure leaves the designated object
+                # unchanged; an indexing closure `|x| &mut x[i]` designates element i
+                cl = self.of_operand(args[1], depth)
+                if cl[0] == "agg" and isinstance(cl[1], tuple) and cl[1][0] == "closure":
+                    rt = self.facts.closure_return_term(cl[1][1])
+                    base = self.of_operand(args[0], depth)
+                    if rt == ("param", 2):
+                        return base
+                    if rt is not None and rt[0] == "index" and rt[1] == ("param", 2):
+                        idx = rt[2]
+                        if idx[0] == "field" and idx[1] == ("param", 1) and isinstance(idx[2], int) and idx[2] < len(cl[2]):
+                            return ("index", base, cl[2][idx[2]])
+                        if idx[0] == "const":
+                            return ("index", base, idx)
             if c.name in ("project", "project_ref") and c.local and PINPROJ.search(c.cpath or "") and args:
                 # pin-project generated projection: `x.project().f` designates `x.f`
                 return self.of_operand(args[0], depth)
